@@ -272,3 +272,24 @@ PROPS['C09'] = dict(
     level_note='Trusted: u128 reference; GMP for the string operand. Partial aliasing (a by-reference base operand pointing into the result) is outside the generated domain: the aliasing clause is read as whole-operand aliasing.',
     assumptions=['batchInverse arrays are non-empty and contain non-zero elements', 'division by a non-zero base element'],
 )
+
+HARNESSES['h_wrappers'] = dict(src='h_wrappers.cpp', deps=['harness/c17_table.inc'])
+
+PROPS['C17'] = dict(
+    title='Strided/offset/broadcast base-field wrappers and bulk copies move the right data',
+    jobs=[J('h_wrappers', 'fast5', 1_600_000, 160_000_000, only='c17.copy,c17.add,c17.sub,c17.mul', wq=16, wt=16, tag='rows'),
+          J('h_wrappers', 'fast2', 400_000, 40_000_000, only='c17.copy,c17.add,c17.sub,c17.mul', wq=8, wt=16, tag='rows', class_prefix='avx2-build:'),
+          J('h_wrappers', 'fast2', 24_000, 1_000_000, only='c17.par', wq=16, wt=16, tag='par')],
+    rule='One table row per live overload of copy/add/sub/mul x _batch/_avx/_avx512 (164 rows, derived from the declarations in goldilocks_base_field.hpp by tools/gen_c17.py: operand shapes read off parameter types, order and names; '
+         '191 declarations counting the 26 commented-out ones; add_batch(Element*, const Element*, const Element*, const uint64_t[4]) is declared but has no definition anywhere: no body to test). '
+         'A generic driver draws operand values from the op-specific boundary/solved pair generators, input strides from {0,1,2,3,4,5,7,61,1000}, output strides from {1,..,1000}, index arrays (permutations, sparse, with repeats for inputs; distinct for outputs), '
+         'lays operands out in exact-size junk-filled heap arenas, calls the overload and compares lane k with the reference op on the k-th designated operands; every output cell not designated must keep its sentinel; inputs unchanged; '
+         'metamorphic rerun with different junk in non-designated input cells must give the same lanes. parcpy/parSetZero: sizes {0..70, 2^k+-1, up to 70000} x thread argument {INT_MIN,-1,0,1,2,3,7,64,256,size-1,size,size+1, default}: '
+         'dst[0..size) exact, 64-element canaries on both sides, source unchanged. Non-trivial: stride not in {1,3}, non-identity index array, non-canonical operand; for par: every case is classified by its size/thread relation.',
+    expected_classes=['shape:stride-0', 'shape:large-stride', 'shape:index-array-with-repeats', 'shape:permuted/sparse-input-index', 'shape:permuted/sparse-output-index', 'shape:non-canonical-operand',
+                      'par:size-0', 'par:non-positive-threads', 'par:more-threads-than-elements', 'par:size-not-multiple-of-threads', 'par:default-thread-argument'],
+    technique='table-driven rapidcheck property-based testing of every overload against the scalar reference; sentinel arenas; metamorphic junk relation',
+    level_text='Every one of the 164 defined overloads is exercised thousands of times per run with independent strides per operand (so that confusing two strides is visible), sentinel-checked output arenas and a metamorphic stray-read check.',
+    level_note='Trusted: u128 reference; the spec of each row is read off the declaration (names offset_a/_b/_c, positional stride). Output strides/index arrays are generated non-overlapping; thread arguments above 256 are not generated.',
+    assumptions=['output positions designated by strides/index arrays are distinct', 'thread-count arguments <= 256'],
+)
